@@ -312,3 +312,12 @@ Theorem C14_gff_bytes_to_regions_any_order : forall (regs : list (list N * (nat 
   bind (codes rs (length genome)) (fun inter => Ok (TopK.ssort cregion (fun a b => (cr_start a <? cr_start b)%Z) rs, inter)).
 Proof. exact gff_bytes_to_regions_any_order. Qed.
 Print Assumptions C14_gff_bytes_to_regions_any_order.
+(* the last link: the variant caller does not care in which ORDER it is handed the regions (file order on the GenBank path, sorted by
+   start on the GFF3 path): for every sequence the two lists hold the same records - "up to the order of records that share one
+   genomic position" *)
+From GF Require Import Indels VariantsModel RegionOrder.
+Theorem C14_variants_region_order_irrelevant : forall ref que gs gs' inter l,
+  Permutation.Permutation gs gs' -> variants_pair ref que gs inter = Ok l ->
+  exists l', variants_pair ref que gs' inter = Ok l' /\ Permutation.Permutation l l'.
+Proof. exact variants_region_order_irrelevant. Qed.
+Print Assumptions C14_variants_region_order_irrelevant.
